@@ -1,6 +1,6 @@
 import AnsiProofs.Props.C05c
 import AnsiProofs.Lemmas.Apply
-import AnsiModel.Generated.Methods
+import AnsiModel.Generated.Methods.ApplyCore
 /-
   Property C06, part d — the *generated* (statement-by-statement translated) body of
   `AnsiString.apply_formatting` (`Gen.applyCore`, the statements after the call of
